@@ -17,7 +17,7 @@ def run(ctx):
     # runs stopped by a termination time (final state speculative) as well as predicate-terminated ones
     agg = runlib.run_matrix(ctx, "committed stream per LP vs Lean sequential per-LP sequence at every fossil collection and at shutdown",
                             36, 900, oracle_keys=("s_below_gvt",), threads=(1, 2, 3, 4), ckpts=(1, 2, 3, 7, 0), tterm=True,
-                            fossil_heavy=True)
+                            fossil_heavy=True, sparse=3)
     if agg:
         ctx.coverage["distinct_nontrivial"] = agg.tot.get("fossil", 0)
         ctx.coverage["rule"] = ("GenModel runs with short GVT periods, half of them stopped by a termination time; non-trivial = fossil collection "
